@@ -8,7 +8,14 @@ from vlib import tlc
 from . import csstok, corpus
 
 RULE = {"asc": "a", "na": ".é"}
-DECL = {"id": "p: v;", "idna": "p: é;", "str": 'p: "s";', "strna": 'p: "é";', "url": "p: url(a.png);",
+MEDIA = {"-": "@media screen {", "na": "@media screen and (--x: é) {"}
+ATB = {"-": "@foo x {", "na": "@foo é {", "name": "@fö x {"}
+ATS = {"-": "@foo y;", "na": "@foo é;", "name": "@fö y;"}
+SUP = {"-": "@supports (a: b) {", "na": "@supports (content: \"é\") {"}
+KF = {"-": "@keyframes k {", "na": "@keyframes glöd {"}
+KFS = {"asc": "from {", "na": "från {"}
+IMP = {"-": "@import url(a.css);", "na": "@import url(é.css);"}
+DECL = {"pna": "pé: v;", "id": "p: v;", "idna": "p: é;", "str": 'p: "s";', "strna": 'p: "é";', "url": "p: url(a.png);",
         "urlna": "p: url(é.png);", "urlq": 'p: url("a.png");', "list": "p: [a b];", "call": "p: f(a);"}
 CPROP = {"plain": "--c: v;", "nl": "--c: {a\n  b};", "na": "--c: é;"}
 CMT = {"one": "/* c */", "multi": "/* c\n d */", "na": "/* é */"}
@@ -21,6 +28,13 @@ EXTRA = ["", "// nothing\n", "/* only */\n", "a {}\n", "a { b: c }", "@media x {
          "@supports (a b\n  ) {c {d: e}}", "@bar x,\n  y;", "@foo a,\n b { c { d: e } }", "a {\n  b: c /* d\n}\n",
          "a { b: \"x\\a y\" }", "a { b: url(  a.png  ) }", "a { b: c !important }", "a { b: \"\\\"\" \'\\\'\' }",
          "@media screen and (min-width: 1px),\n print { a { b: c } }", "a,\nb { c: d,\n e }",
+         # one non-ASCII character in each position class of the output (and nowhere else)
+         ".é { b: c }", "a { bé: c }", "a { b: é }", "a { b: \"é\" }", "a { b: url(é.png) }", "a { --x: é }", "/* é */", "a { /* é */ b: c }",
+         "@import url(é.css);", "@import \"é.css\";", "@fö x { a { b: c } }", "@fö y;", "@foo é { a { b: c } }", "@foo é;", "@foo \"é\";",
+         "@media screen and (--x: é) { a { b: c } }", "@media glöd { a { b: c } }", "@media (min-width: 1px) and (x: \"é\") { a { b: c } }",
+         "@supports (content: \"é\") { a { b: c } }", "@supports (é: b) { a { b: c } }", "@keyframes glöd { from { b: c } }",
+         "@keyframes k { från { b: c } to { b: d } }", "@font-face { font-family: \"é\" }", "@page :first { margin: 1px; b: é }",
+         "a { @media (x: é) { b: c } }", "@media x { @foo é; }", "@media x { @keyframes glöd { from { b: c } } }", "@namespace é url(a);",
          "/*! keep\n me */\na { /*! é */ b: c }", "/* drop\n me */\na { /* é */ b: c }"]
 
 
@@ -31,9 +45,17 @@ def render_prog(prog):
         if k == "rule":
             out.append(RULE[a] + " {")
         elif k == "media":
-            out.append("@media screen {")
+            out.append(MEDIA[a])
         elif k == "atb":
-            out.append("@foo x {")
+            out.append(ATB[a])
+        elif k == "sup":
+            out.append(SUP[a])
+        elif k == "kf":
+            out.append(KF[a])
+        elif k == "kfs":
+            out.append(KFS[a])
+        elif k == "imp":
+            out.append(IMP[a])
         elif k == "decl":
             out.append(DECL[a])
         elif k == "cprop":
@@ -41,7 +63,7 @@ def render_prog(prog):
         elif k == "cmt":
             out.append(CMT[a])
         elif k == "ats":
-            out.append("@foo y;")
+            out.append(ATS[a])
         elif k == "close":
             out.append("}")
         else:
@@ -59,8 +81,10 @@ def out_text(res):
 class C07(Engine):
     prop = "C07"
     level = "model_checking"
-    rule = ("Model: TLC enumerates every output tree of <= MaxLen statements (rules with ASCII / non-ASCII selectors, @media, unknown at-rules, "
-            "declarations with string / url() / bracketed / call values with and without non-ASCII text, custom properties with line breaks, comments) "
+    rule = ("Model: TLC enumerates every output tree of <= MaxLen statements (rules with ASCII / non-ASCII selectors, @media, @supports, @keyframes with "
+            "keyframe selectors, unknown at-rules with and without block, @import, declarations with string / url() / bracketed / call values, custom "
+            "properties with line breaks, comments; the non-ASCII text ranges over every position class: selector, property name, value, custom property, "
+            "comment, @import url, at-rule name, at-rule prelude, @media query, @supports condition, @keyframes name, keyframe selector) "
             "and checks that the framing automaton accepts the abstract writer's expanded and compressed token streams (token by token in the step "
             "configuration), that every single framing fault applied to such a stream is rejected, and that hand-made bad streams are rejected. "
             "Binding: every one of those trees is compiled by rsass in both styles, and so are the sass-spec corpus inputs (sampled in quick, all in "
@@ -74,8 +98,10 @@ class C07(Engine):
                    "failing compilations, panics and timeouts are not outputs (C01 owns them) and are skipped"]
     trace = ("Trace_Framing", "Trace_Framing.cfg")
     mc_runs = {
-        "quick": [("MC_Framing", "MC_Framing_q.cfg", {"workers": 4, "timeout": 600}), ("MC_Framing", "MC_Framing_step.cfg", {"workers": 4, "timeout": 600})],
+        "quick": [("MC_Framing", "MC_Framing_q.cfg", {"workers": 4, "timeout": 600}), ("MC_Framing", "MC_Framing_qa.cfg", {"workers": 4, "timeout": 600}),
+                  ("MC_Framing", "MC_Framing_step.cfg", {"workers": 4, "timeout": 600})],
         "thorough": [("MC_Framing", "MC_Framing_t1.cfg", {"workers": 4, "timeout": 1500}), ("MC_Framing", "MC_Framing_t.cfg", {"workers": 4, "timeout": 1500}),
+                     ("MC_Framing", "MC_Framing_ta.cfg", {"workers": 4, "timeout": 1500}), ("MC_Framing", "MC_Framing_stepa.cfg", {"workers": 4, "timeout": 1500}),
                      ("MC_Framing", "MC_Framing_stept.cfg", {"workers": 4, "timeout": 1500})],
     }
     corpus_n = {"quick": 2500, "thorough": None}
